@@ -36,6 +36,8 @@ def run(ctx, report):
     report.section("defaults", S.rule_defaults, report, ctx.index, "2")
     report.section("direct global mutation", S.rule_globalmut_direct, report, ctx.index, "4")
     report.section("scratch lists", scratch_lists, ctx, report, rs)
+    from . import chain_fold
+    report.section("reader objects used repeatedly", chain_fold.reader_reuse, ctx, report, "R-DOC-REUSE", "1")
     from . import sami_reader_fold
     report.section("SAMI reader reuse", sami_reader_fold.run, ctx, report, {"reuse": ("R-DOC-REUSE", "1")})
     report.not_decided.append("equality of two result sets as such; behaviour of bs4 / html.parser / cssutils")
